@@ -414,6 +414,9 @@ def _bounded_by_constants(lib, cm, body, op, depth=0, seen=None):
         return True, consts
     if tr.origin[0] == "call":
         f = fn_of(tr.origin[2]) or {}
+        acv = common.accessor_const(lib, body, op)
+        if acv is not None:
+            return True, [acv]
         if f.get("name") in ("saturating_sub", "min", "checked_sub", "wrapping_sub") and tr.origin[2]["args"]:
             if f["name"] == "min":
                 a = _bounded_by_constants(lib, cm, body, tr.origin[2]["args"][0], depth + 1, seen)
@@ -579,6 +582,9 @@ def r05_3(ctx):
                 if v is None:
                     tr = strace(sup, nn, t["args"][1])
                     v = tr.origin[1].get("v") if tr.origin and tr.origin[0] == "const" else None
+                if v is None:
+                    # a named constant behind a newtype and its accessor: `CUTOFF.size_hint()`
+                    v = common.accessor_const(lib, bx, t["args"][1])
                 cap = (16 << 20) if fmt == "toml" else 4096
                 ctx.ob(f"{fmt}:prefix-size-constant", isinstance(v, int) and v <= cap, sup.site(nn), f"prefix({v}) (accepted look-ahead for this trial: <= {cap} bytes)")
                 if fmt == "toml" and isinstance(v, int):
@@ -589,8 +595,13 @@ def r05_3(ctx):
                     for cn in sorted(sup.nodes(), key=str):
                         cbody = sup.body_of(cn)
                         for s in cbody.blocks[cn[1]]["stmts"]:
-                            if not (s["k"] == "assign" and s["rv"]["k"] == "binop" and s["rv"]["op"] in ("Ge", "Gt", "Lt", "Le") and const_value(s["rv"]["b"]) == v and not s["p"]["pr"]):
+                            if not (s["k"] == "assign" and s["rv"]["k"] == "binop" and s["rv"]["op"] in ("Ge", "Gt", "Lt", "Le") and not s["p"]["pr"]):
                                 continue
+                            if const_value(s["rv"]["b"]) != v:
+                                # (the cap may reach the comparison as a helper's parameter: `CUTOFF.reached_by(prefix)`)
+                                bt_ = strace(sup, cn, s["rv"]["b"]) if is_place(s["rv"]["b"]) else None
+                                if not (bt_ and bt_.origin and bt_.origin[0] == "const" and bt_.origin[1].get("v") == v):
+                                    continue
                             over_when_true = s["rv"]["op"] in ("Ge", "Gt")
                             carr = carriers(sup, cn, s["p"]["l"], extra_pass=("then_some",))
                             for sn, sw, how in switches_on_carriers(sup, carr):
@@ -998,6 +1009,8 @@ def r10_4(ctx):
         if cb and cb.raw.get("ret_ty", "").startswith("std::result::Result<&[u8], std::io::Error>") and len(t["args"]) == 2:
             tr = strace(sup, nn, t["args"][1])
             v = const_value(t["args"][1]) if t["args"][1].get("k") == "const" else (tr.origin[1].get("v") if tr.origin and tr.origin[0] == "const" else None)
+            if v is None:
+                v = common.accessor_const(lib, bx, t["args"][1])
             if isinstance(v, int):
                 caps.append(v)
     ctx.need(caps, "prefix accessor call with a constant size not found in the TOML trial")
@@ -1017,7 +1030,15 @@ def r10_4(ctx):
     for cn in sorted(sup.nodes(), key=str):
         cbody = sup.body_of(cn)
         for s_ in cbody.blocks[cn[1]]["stmts"]:
-            if s_["k"] == "assign" and s_["rv"]["k"] == "binop" and s_["rv"]["op"] in ("Ge", "Gt", "Lt", "Le") and (const_value(s_["rv"]["b"]) in caps or const_value(s_["rv"]["a"]) in caps):
+            def _is_cap(o_):
+                if const_value(o_) in caps:
+                    return True
+                if is_place(o_):
+                    t_ = strace(sup, cn, o_)
+                    return bool(t_.origin and t_.origin[0] == "const" and t_.origin[1].get("v") in caps)
+                return False
+
+            if s_["k"] == "assign" and s_["rv"]["k"] == "binop" and s_["rv"]["op"] in ("Ge", "Gt", "Lt", "Le") and (_is_cap(s_["rv"]["b"]) or _is_cap(s_["rv"]["a"])):
                 n += 1
                 ok = any(ps.edge_dominates(e[0], e[1], e[2], cn) for e in redges)
                 ctx.ob(f"cap-test-under-reader-arm:{n}", ok, sup.site(cn), "the size cap is tested only for reader input" if ok else "the size cap is also applied to in-memory input: a large TOML document (xt's own output) is no longer recognised")
